@@ -17,6 +17,7 @@ pub fn run_c06(args: &Args) -> i32 {
   rep.assume(&format!("disproportionate = more than {} s thread CPU time or more than 64*len + 1 MiB heap high-water growth for one datagram, or a single allocation request >= {} MiB (refused: the shard reports and exits); a call burning > {} s CPU is judged as not returning", hostile::CPU_DISPROPORTIONATE_S, alloc::HUGE >> 20, shard::CPU_BUDGET_S));
   rep.assume("two builds of the same harness: release profile (debug assertions and overflow checks off) and the same with overflow checks and debug assertions on (counters prefixed overflow-checked:), default features; each datagram goes through MessageReceiver::handle_received_packet of all three endpoints, then one repair step and one take");
   rep.assume("the well-behaved peer of the aftermath check is never impersonated by the generator");
+  rep.assume("memcheck / interpreter legs (counters prefixed valgrind: and miri:): a socket-free workload (src/bin/vmiri.rs: hostile datagrams through the real parser, FragmentAssembler, RtpsWriterProxy and number-set iterators; builder->bytes->parser round trips; PL-CDR discovery data incl. byte-mutated lists) under valgrind memcheck in both tiers and under Miri in the thorough tier, plus real C06 shards (sockets, benches) under valgrind in the thorough tier; Miri cannot open sockets, so Reader/Writer objects are out of its reach; any memcheck error or Miri Undefined-Behaviour report is a violation, a tool run that ends without a diagnosis is inconclusive");
   let per_case = 50usize;
   let seed = args.seed;
   let replay_case = crate::replay_index(args);
@@ -61,6 +62,54 @@ pub fn run_c06(args: &Args) -> i32 {
     }
     Some(_) => {}
     None => acc.inconclusive.push("overflow-checked build of the harness not found (VERIF_RELCHECK_EXE)".to_string()),
+  }
+  // memcheck / interpreter legs: run by ./check before this process (tools/interp_legs.sh), judged here
+  if let Ok(path) = std::env::var("VERIF_INTERP_SUMMARY") {
+    match std::fs::read_to_string(&path).ok().and_then(|s| serde_json::from_str::<serde_json::Value>(&s).ok()) {
+      None => acc.inconclusive.push(format!("memcheck/interpreter legs left no summary at {path} (see interp-legs.log next to it)")),
+      Some(v) => {
+        for tool in ["miri", "valgrind"] {
+          let t = &v[tool];
+          if tool == "miri" && t["skipped"].as_bool() == Some(true) {
+            continue;
+          }
+          if tool == "miri" && t["built"].as_bool() != Some(true) {
+            acc.inconclusive.push("the Miri build of the socket-free workload failed (interp-logs/miri-build.log)".to_string());
+            continue;
+          }
+          acc.count(&format!("{tool}:processes"), t["processes"].as_u64().unwrap_or(0));
+          acc.count(&format!("{tool}:processes_without_report"), t["processes_clean"].as_u64().unwrap_or(0));
+          if let Some(c) = t["counters"].as_object() {
+            for (k, n) in c {
+              acc.count(&format!("{tool}:{k}"), n.as_u64().unwrap_or(0));
+            }
+          }
+          for r in t["reports"].as_array().cloned().unwrap_or_default() {
+            let err = r["error"].as_str().unwrap_or("?").to_string();
+            let at = r["at"].as_str().unwrap_or("unknown-site").to_string();
+            // a tool that did not get to the end without a diagnosis (killed, unsupported operation) is not a verdict
+            let is_report = tool == "valgrind" && !err.starts_with("exit ") && !err.starts_with("shard report") || r["is_ub"].as_bool() == Some(true);
+            if is_report {
+              let kind: String = err.split(|c: char| !(c.is_alphanumeric() || c == ' ')).next().unwrap_or("").trim().replace(' ', "-").chars().take(48).collect();
+              acc.violate(format!("C06/{tool}:{kind}@{at}"), json!({"report": err, "log": r["log"]}), json!({"case": {"seed": seed, "leg": tool}, "log": r["log"]}));
+            } else {
+              acc.inconclusive.push(format!("{tool} process ended without a summary or a diagnosis: {err} ({})", r["log"]));
+            }
+          }
+          if tool == "valgrind" {
+            acc.count("valgrind:real_shard_cases", t["shard_cases"].as_u64().unwrap_or(0));
+            for sig in t["shard_violations"].as_array().cloned().unwrap_or_default() {
+              acc.violate(format!("{}", sig.as_str().unwrap_or("C06/valgrind-shard")), json!({"under": "valgrind memcheck"}), json!({"case": {"seed": seed, "leg": "valgrind-shard"}}));
+            }
+          }
+        }
+        rep.require("valgrind:processes_without_report", 1);
+        if v["mode"] == "thorough" {
+          rep.require("miri:processes_without_report", 1);
+          rep.require("miri:datagrams_parsed", 100);
+        }
+      }
+    }
   }
   rep.require("datagrams_fed", 50_000);
   rep.require("aftermath_ok", 500);
